@@ -247,7 +247,7 @@ def check_normal_form(case, m, ctx, tag=""):
         for i in range(N):
             v = m.vertices[i]
             arr = np.asarray(v)
-            if not ctx.check(arr.shape == (3,) and arr.dtype.kind == "f" and [float(x) for x in arr] == [float(x) for x in V[i]], "vertices",
+            if not ctx.check(arr.shape == (3,) and arr.dtype.kind in "fiu" and [float(x) for x in arr] == [float(x) for x in V[i]], "vertices",
                              f"{tag}vertex {i} = {v!r} (type {type(v).__name__}, dtype {arr.dtype}), expected 3-D float {V[i]}"):
                 break
     if dim == 0:
